@@ -291,15 +291,20 @@ def gen_conv_cases(ck, cfg):
         else:
             vals = float_patterns(ck, src, cfg)
         big = len(vals) > 5000
+        if big:
+            # all 2^16 values through mpt_value_convert for the targets whose limits lie inside
+            # the source range (plus one wide and one floating target); the other call families
+            # and targets get the boundary set
+            for dst in "cbynqiuxf":
+                for hx in vals:
+                    cases.append({"a": "conv", "arg": {"api": "value", "src": src, "dst": dst, "bytes": hx}})
+            vals = [int_bytes(v, INTS[src][1]) for v in int_values(ck, src, dict(cfg, full16=False))]
         for dst in TYPES:
-            apis = ("value",) if big else ("value", "data", "iter")
-            for api in apis:
+            for api in ("value", "data", "iter"):
+                if big and api == "value" and dst in "cbynqiuxf":
+                    continue
                 for hx in (vals if api == "value" else vals[::cfg["api_stride"][api]]):
                     cases.append({"a": "conv", "arg": {"api": api, "src": src, "dst": dst, "bytes": hx}})
-        if big:     # 16-bit exhaustive through the converter itself for a few targets
-            for dst in "cbyqif":
-                for hx in vals:
-                    cases.append({"a": "conv", "arg": {"api": "data", "src": src, "dst": dst, "bytes": hx}})
     return cases
 
 
@@ -321,8 +326,8 @@ def gen_text_cases(ck, cfg):
         for d in (-2, -1, 0, 1):
             mags.add((1 << k) + d)
     for nd in cfg["long_digits"]:
-        mags.add(int("9" * nd))
-        mags.add(int("1" + "0" * (nd - 1)))
+        mags.add(10 ** nd - 1)
+        mags.add(10 ** (nd - 1))
     mags.update([(1 << 64) + (1 << 63), (1 << 64) + 1, 2 * (1 << 64) - 1, 340282346638528859811704183484516925440,
                  340282356779733661637539395458142568448, 340282356779733661637539395458142568447, 1 << 128])
     forms = [(10, 0, ""), (10, 10, ""), (16, 0, "0x"), (16, 16, "0x"), (16, 16, ""), (16, 0, "0X"), (8, 0, "0"), (8, 8, ""),
@@ -403,7 +408,7 @@ def validate_events(events, nchunks, tag):
     if not events:
         return [], 0, 0
     nchunks = max(1, min(nchunks, len(events) // 500 + 1))
-    size = (len(events) + nchunks - 1) // nchunks
+    size = min((len(events) + nchunks - 1) // nchunks, 40000)      # bounded memory per TLC process
     spans = [(i, events[i:i + size]) for i in range(0, len(events), size)]
 
     def one(sp):
